@@ -130,10 +130,7 @@ def run(tier):
     common.import_pregex()
     import pregex.core.classes as cl
     base = cl.Any.__mro__[1]
-    run.functions = common.src_fingerprint([base.__or__, base.__ror__, base._Class__or, base.__sub__, base.__rsub__, base._Class__sub,
-                                            base.__invert__, cl.AnyWordChar.__invert__, cl.AnyButWordChar.__invert__, cl.Any.__invert__,
-                                            base._Class__process, base._Class__chars_to_ranges, base._Class__extract_classes,
-                                            base._Class__separate_classes, base._Class__modify_classes, base._Class__split_range])
+    run.functions = common.src_fingerprint(common.resolve([(base, "__or__"), (base, "__ror__"), (base, "_Class__or"), (base, "__sub__"), (base, "__rsub__"), (base, "_Class__sub"), (base, "__invert__"), (cl.AnyWordChar, "__invert__"), (cl.AnyButWordChar, "__invert__"), (cl.Any, "__invert__"), (base, "_Class__process"), (base, "_Class__chars_to_ranges"), (base, "_Class__extract_classes"), (base, "_Class__separate_classes"), (base, "_Class__modify_classes"), (base, "_Class__split_range")]))
     ex = family(tier)
     seed_list = list(range(6)) if tier == "quick" else list(range(24))
     n = 150
